@@ -92,6 +92,16 @@ Proof. exact ring_peek_split. Qed.
 Theorem C03_ring_retrieve_drops_content : forall (g : ring Byte.byte) n, ring_wf g ->
   ring_content (ring_retrieve g n) = skipn n (ring_content g) /\ ring_wf (ring_retrieve g n).
 Proof. exact ring_retrieve_refines. Qed.
+(* whole histories: any sequence of Length / Peek / Retrieve on a well-formed ring shows what the same sequence shows on
+   the content alone, and ends well-formed with the content the abstract history ends with; a new ring is well-formed *)
+Theorem C03_ring_history_refines : forall (ops : list rop) (g : ring Byte.byte), ring_wf g ->
+  snd (run_ops ring_step g ops) = snd (run_ops content_step (ring_content g) ops) /\
+  ring_content (fst (run_ops ring_step g ops)) = fst (run_ops content_step (ring_content g) ops) /\
+  ring_wf (fst (run_ops ring_step g ops)).
+Proof. exact ring_history_refines. Qed.
+Theorem C03_ring_new_wf : forall size, (0 < size)%nat ->
+  ring_wf (mkRing (repeat Byte.x00 size) size 0 0 true) /\ ring_content (mkRing (repeat Byte.x00 size) size 0 0 true) = [].
+Proof. intros size H. unfold ring_wf; cbn. rewrite repeat_length. auto. Qed.
 (* not vacuous: a wrapped ring of 5 cells holding 4 bytes, Peek(3) really is split 2 + 1 *)
 Example C03_ring_wrapped_example :
   let g := mkRing [Byte.x03; Byte.x04; Byte.x00; Byte.x01; Byte.x02] 5 3 2 false in
@@ -103,3 +113,5 @@ Print Assumptions C03_ring_length_is_content_length.
 Print Assumptions C03_ring_peek_is_content_prefix.
 Print Assumptions C03_ring_peek_split_is_geometry.
 Print Assumptions C03_ring_retrieve_drops_content.
+Print Assumptions C03_ring_history_refines.
+Print Assumptions C03_ring_new_wf.
